@@ -42,7 +42,7 @@ var (
 	c39Paths  = []string{"unshard", "single", "shard2", "shard4"}
 	c39Protos = []string{"text", "binary"}
 	c39Limits = []int{-1, 5, 10000}
-	c39Sizes  = []string{"small", "m15_9", "m16", "m16_1", "m33", "giant", "m36x1", "m36x3", "m50x1", "m50x3", "m70x1", "m70x3"}
+	c39Sizes  = []string{"small", "m15_9", "m16", "m16_1", "m33", "giant", "m36x1", "m36x3", "m50x1", "m50x3", "m70x1", "m70x3", "e1m1", "e1", "e1p1", "e2m1", "e2", "e2p1"}
 )
 
 func c39Rels(limit int) []string {
@@ -72,7 +72,31 @@ func c39MultiChunk(size string) (mib int, x3 bool, ok bool) {
 	return 0, false, false
 }
 
+// c39Edge returns the row packet size of the "frame edge" size classes: four rows, the second
+// of which reaches the client as a packet of exactly k*(2^24-1) bytes (k = 1, 2) or one byte
+// less / more, i.e. k full frames that must be followed by an empty frame.
+func c39Edge(size string) (int, bool) {
+	switch size {
+	case "e1m1":
+		return 1<<24 - 2, true
+	case "e1":
+		return 1<<24 - 1, true
+	case "e1p1":
+		return 1 << 24, true
+	case "e2m1":
+		return 2*(1<<24-1) - 1, true
+	case "e2":
+		return 2 * (1<<24 - 1), true
+	case "e2p1":
+		return 2*(1<<24-1) + 1, true
+	}
+	return 0, false
+}
+
 func (c c39Case) valid() bool {
+	if _, ok := c39Edge(c.Size); ok {
+		return c.Rel == "free" && c.Path != "shard4" && !c.Order
+	}
 	if _, x3, ok := c39MultiChunk(c.Size); ok {
 		if c.Path == "shard4" {
 			return false // 4 x 70 MiB per case: the per-backend chunk loop is the same code as with 2 shards
@@ -113,6 +137,9 @@ func (c c39Case) rows() int {
 	if c.Size == "giant" {
 		return 2
 	}
+	if _, ok := c39Edge(c.Size); ok {
+		return 4
+	}
 	if mib, x3, ok := c39MultiChunk(c.Size); ok {
 		if x3 {
 			return mib * 2 / 7 // rows of about 3.5 MiB
@@ -141,6 +168,9 @@ func (c c39Case) bytes() int64 {
 	}
 	if mib, _, ok := c39MultiChunk(c.Size); ok {
 		return int64(mib) << 20
+	}
+	if t, ok := c39Edge(c.Size); ok {
+		return int64(t) + 300
 	}
 	return 0
 }
@@ -257,6 +287,33 @@ func newC39Gen(shard, shards, n int, total int64) *c39Gen {
 	return g
 }
 
+// c39GenFor builds the generator of one shard of case c.
+func c39GenFor(c c39Case, shard, shards int) *c39Gen {
+	t, ok := c39Edge(c.Size)
+	if !ok {
+		return newC39Gen(shard, shards, c.rows(), c.bytes())
+	}
+	// rows 0, 2, 3 are small; row 1 is sized so that the packet THE CLIENT receives has
+	// exactly t bytes: text row = lenenc(id) + lenenc(payload); binary row = 0x00 + null
+	// bitmap (1 byte for 2 columns) + 8-byte id + lenenc(payload)
+	g := &c39Gen{shard: shard, shards: shards, n: 4, lens: []int{90, 0, 90, 90}, exact: true}
+	fixed := 1 + c39Digits(g.id(1))
+	if c.Proto == "binary" {
+		fixed = 1 + 1 + 8
+	}
+	l := t - fixed - 4
+	if l >= 1<<24 {
+		l = t - fixed - 9
+	}
+	if fixed+c39LenEncSize(l)+l != t {
+		g.exact = false
+	}
+	g.lens[1] = l
+	g.maxLen = l
+	g.total = int64(t) + 300
+	return g
+}
+
 // cells returns the two cells (id, payload) of row i; valid until the next call.
 func (g *c39Gen) cells(i int) [][]byte {
 	blk := c39GetBlock()
@@ -348,7 +405,7 @@ func (rg *c39Rig) handler(conn *fakemysql.ConnState, sql string) fakemysql.Respo
 		// id = 1 lives on slice-1 of the two-slice rule; ids keep the two-shard layout
 		shards = 2
 	}
-	g := newC39Gen(shard, shards, c.rows(), c.bytes())
+	g := c39GenFor(*c, shard, shards)
 	idx, ok := c39SelectList(low)
 	if !ok {
 		return fakemysql.Err(1054, "42S22", "fake backend cannot answer this select list: "+sql)
@@ -536,11 +593,15 @@ var (
 	c39Exp   = map[string][][32]byte{}
 )
 
-func c39Expected(shard, shards, n int, total int64) ([][32]byte, bool) {
-	k := fmt.Sprintf("%d/%d/%d/%d", shard, shards, n, total)
+func c39Expected(c c39Case, shard, shards int) ([][32]byte, bool) {
+	n := c.rows()
+	k := fmt.Sprintf("%d/%d/%d/%d/%s", shard, shards, n, c.bytes(), c.Size)
+	if _, edge := c39Edge(c.Size); edge {
+		k += "/" + c.Proto
+	}
 	c39ExpMu.Lock()
 	defer c39ExpMu.Unlock()
-	g := newC39Gen(shard, shards, n, total)
+	g := c39GenFor(c, shard, shards)
 	if h, ok := c39Exp[k]; ok {
 		return h, g.exact
 	}
@@ -600,11 +661,11 @@ func c39RunCase(rg *c39Rig, c c39Case) (clause string, o c39Obs, err error) {
 	shards := c.shards()
 	var exp [][32]byte
 	if c.Path == "single" {
-		h, _ := c39Expected(1, 2, c.rows(), c.bytes())
+		h, _ := c39Expected(c, 1, 2)
 		exp = h
 	} else {
 		for s := 0; s < shards; s++ {
-			h, _ := c39Expected(s, shards, c.rows(), c.bytes())
+			h, _ := c39Expected(c, s, shards)
 			exp = append(exp, h...)
 		}
 	}
@@ -834,11 +895,14 @@ func c39Core() []c39Case {
 		{"single", "text", -1, "free", "m36x1", false},
 		{"shard2", "binary", -1, "free", "m36x3", false},
 		{"unshard", "text", -1, "free", "m50x1", false},
+		// a row reaching the client as exactly two full frames (needs the empty terminating frame), followed by more rows
+		{"unshard", "text", -1, "free", "e2", false},
+		{"shard2", "binary", -1, "free", "e1", false},
 	}
 }
 
 func TestVerif_C39(t *testing.T) {
-	rec := kit.Start("C39", "exploration", "case = (path unshard|single|shard2|shard4) x (text|binary protocol) x max_sql_result_size {-1,5,10000} x rows per shard {limit-1,limit,limit+1 | 12 when unlimited (2 for 17 MiB rows)} x bytes per shard result {100 B rows, 15.9, 16, 16.1, 33 MiB, 17 MiB rows, 36/50/70 MiB = 3/4/5 chunks from one backend with 1 MiB or 3.5 MiB rows} x ORDER BY; quick = fixed core list + seeded sample, thorough = whole space; a case is non-trivial when the fake backend served its statement; distinct key = the feature vector")
+	rec := kit.Start("C39", "exploration", "case = (path unshard|single|shard2|shard4) x (text|binary protocol) x max_sql_result_size {-1,5,10000} x rows per shard {limit-1,limit,limit+1 | 12 when unlimited (2 for 17 MiB rows)} x bytes per shard result {100 B rows, 15.9, 16, 16.1, 33 MiB, 17 MiB rows, 36/50/70 MiB = 3/4/5 chunks from one backend with 1 MiB or 3.5 MiB rows, a row of exactly k*(2^24-1) bytes (k=1,2; -1/+1 byte) followed by further rows} x ORDER BY; quick = fixed core list + seeded sample, thorough = whole space; a case is non-trivial when the fake backend served its statement; distinct key = the feature vector")
 	defer rec.Finish(t)
 	rec.Assume("the fake MySQL server (rig R3) emits text-protocol result sets exactly as scripted; rows are identified by SHA-256 over their cell values, so the comparison does not depend on packet framing")
 	rec.Assume("row limit semantics per the property: a per-shard result with rows <= max_sql_result_size is delivered in full, rows > limit is an error; -1 means unlimited")
@@ -899,7 +963,8 @@ func TestVerif_C39(t *testing.T) {
 			// keep the quick tier within its byte budget: at most every third sampled case is a 33 MiB / giant one,
 			// at most every ninth a multi-chunk (36-70 MiB per backend) one
 			_, _, multi := c39MultiChunk(c.Size)
-			if ((c.Size == "m33" || c.Size == "giant") && i%3 != 0) || (multi && i%9 != 0) {
+			_, edge := c39Edge(c.Size)
+			if ((c.Size == "m33" || c.Size == "giant" || edge) && i%3 != 0) || (multi && i%9 != 0) {
 				c.Size = []string{"small", "m15_9", "m16", "m16_1"}[r.Intn(4)]
 			}
 			if !c.valid() {
@@ -930,11 +995,11 @@ func TestVerif_C39(t *testing.T) {
 func c39ExpectedExact(c c39Case) (int, bool) {
 	shards := c.shards()
 	if c.Path == "single" {
-		return c.rows(), newC39Gen(1, 2, c.rows(), c.bytes()).exact
+		return c.rows(), c39GenFor(c, 1, 2).exact
 	}
 	ok := true
 	for s := 0; s < shards; s++ {
-		if !newC39Gen(s, shards, c.rows(), c.bytes()).exact {
+		if !c39GenFor(c, s, shards).exact {
 			ok = false
 		}
 	}
